@@ -4,7 +4,9 @@ Implementation under test (imported from $SCALES_REPO as it is now):
   scales.loadbalancer.zookeeper.ServerSet (with Member.from_node) created with on_join/on_leave and a
   member_filter exactly as ZooKeeperServerSetProvider.Initialize does, on top of the REAL
   kazoo.recipe.watchers.DataWatch / ChildrenWatch running over harness/c19_fakezk.FakeZk.
-A case is a history {'filtered': [...], 'ops': [...]} with operations
+A case is a history {'filtered': [...], 'ep_mod': m (optional), 'ops': [...]} (member n announces the
+endpoint n mod m: different node names with the same host:port, a server restarting under a new node)
+with operations
   ['start'] | ['mkp'] | ['rmp'] | ['touch'] | ['mk', n] | ['rm', n] | ['deliver'] | ['work'] | ['raise']
 (the harness greenlet never yields except inside 'work', so the schedule is the op sequence: tree
 mutations, delivery of the oldest pending watch callback, one run of the notification worker up to
@@ -12,7 +14,8 @@ its next blocking point - a member read, answered from the tree at that moment -
 consumer callback to raise).
 Model: coq/Model/ZkSet.v, evaluated in lock step on every history (check_case).
 Monitor: the property statement on the on_join/on_leave log vs the simulated tree, written without
-reference to the model.
+reference to the model; membership is tracked both by node name and - the way LoadBalancerSink keys
+its servers - by endpoint.
 """
 import json
 import os
@@ -56,7 +59,10 @@ RULE = ('histories over 2-5 member names (some rejected by the member filter): (
         'filtered), one shortest history per distinct shadow state up to depth 8 (quick) / 12 (thorough), each driven to '
         'quiescence, (c) 700 (quick) / 11000 (thorough) seeded random histories of 10-90 operations with creates/deletes, path '
         'deletion/re-creation/touch, deliveries and worker runs in any order (worker starved, deliveries late, path churn modes), '
-        'members vanishing between listing and reading, raising callbacks, settling phases; streams (b),(c) stay outside the two '
+        'members vanishing between listing and reading, raising callbacks, settling phases; (c2) restart histories: a state cover '
+        'over 3 names / 2 endpoints and 300 (quick) / 4000 (thorough) random histories in which different node names announce '
+        'the same endpoint (old node deleted and new node created in one children event, never two live nodes with one '
+        'endpoint), judged also by an endpoint-keyed consumer; streams (b),(c),(c2) stay outside the two '
         'schedule families g2/g3 on which the code is known to fail; (d) for each family listed in KNOWN_FINDINGS.json (or '
         'requested with C19_AVOID): hand-written reproducers, an unrestricted state cover (depth 8/10) and 250/3000 unrestricted '
         'random histories; non-trivial = at least one callback was delivered and a quiescent point was checked; distinct by '
@@ -124,8 +130,13 @@ def _un(s):
   return int(s.split('_')[1])
 
 
-def _data(n):
-  return json.dumps({'serviceEndpoint': {'host': 'h%d' % n, 'port': 1000 + n}, 'additionalEndpoints': {},
+def _ep(case, n):
+  m = case.get('ep_mod')
+  return n % m if m else n
+
+
+def _data(ep):
+  return json.dumps({'serviceEndpoint': {'host': 'h%d' % ep, 'port': 1000 + ep}, 'additionalEndpoints': {},
                      'status': 'ALIVE'}).encode()
 
 
@@ -139,6 +150,7 @@ class _Run(object):
     self.zk = _S['fake'].FakeZk(PATH)
     self.ss = None
     self.events = []
+    self.event_eps = []
     self.armed = 0
     self.allow_raise = allow_raise
     self.greenlet_errors = []
@@ -149,11 +161,16 @@ class _Run(object):
         n = _un(m.name)
       except Exception:            # not a Member (e.g. None): still a notification the consumer received
         n = -1
+      try:                         # the endpoint the member announces (what the load balancers key on)
+        e = int(m.service_endpoint.port) - 1000
+      except Exception:
+        e = -1
       r = False
       if self.armed > 0:
         self.armed -= 1
         r = True
       self.events.append([kind, n, r])
+      self.event_eps.append(e)
       if r:
         raise RuntimeError('consumer callback fails')
     return f
@@ -182,7 +199,7 @@ class _Run(object):
     elif k == 'touch':
       o['eff'] = zk.touch_parent()
     elif k == 'mk':
-      o['eff'] = zk.create(_nm(self.case, op[1]), _data(op[1]))
+      o['eff'] = zk.create(_nm(self.case, op[1]), _data(_ep(self.case, op[1])))
     elif k == 'rm':
       o['eff'] = zk.delete(_nm(self.case, op[1]))
     elif k == 'deliver':
@@ -203,6 +220,7 @@ class _Run(object):
     else:
       raise ValueError(k)
     o['ev'] = self.events[e0:]
+    o['evep'] = self.event_eps[e0:]
     o['reads'] = [[_un(n), f] for n, f in zk.read_log[r0:]]
     o['parked'] = None if zk.parked is None else _un(zk.parked[0])
     o['pending'] = [p[0] for p in zk.pending]
@@ -273,6 +291,9 @@ def monitor(case, obs):
   started = False
   busy = False                 # a watch callback has run and the worker has not gone idle since
   consumer = set()
+  by_ep = {}                   # the consumer the way LoadBalancerSink keeps it: endpoint -> member (join ignored when present)
+  ep_ok = True                 # judged by endpoint only while no two present members ever shared an endpoint and no
+                               # violation by name has been seen (a derailed consumer is reported once, by name)
   skipped = set()              # members whose read found nothing and whose absence no later notification has shown
   prev = {'pending': [], 'cw': 0, 'parked': None, 'tree': None}
   checked = 0
@@ -318,7 +339,13 @@ def monitor(case, obs):
     if k == 'work' and st['parked'] is None:
       busy = False
     # --- the notifications of this step ------------------------------------------------------------
-    for kind, n, _raised in st['ev']:
+    if len(set(_ep(case, n) for n in (st['tree'] or []) if n not in filtered)) != len([n for n in (st['tree'] or []) if n not in filtered]):
+      ep_ok = False
+    for (kind, n, _raised), e in zip(st['ev'], st.get('evep') or [None] * len(st['ev'])):
+      if kind == 'join':
+        by_ep.setdefault(e, n)
+      else:
+        by_ep.pop(e, None)
       if n in filtered:
         flag('filtered-name-reported', 'step %d: %s reported for %d which the member filter rejects' % (i, kind, n))
       if kind == 'join':
@@ -338,6 +365,15 @@ def monitor(case, obs):
              'step %d (%s): quiescent, consumer holds %s but the members present are %s (stale %s, missing %s)'
              % (i, k, sorted(consumer), sorted(want), sorted(consumer - want), sorted(want - consumer)),
              stale=consumer - want, missing=want - consumer)
+      if v:
+        ep_ok = False
+      if ep_ok and 'evep' in st:
+        want_ep = set(_ep(case, n) for n in want)
+        if set(by_ep) != want_ep:
+          flag('consumer-endpoints-differ-from-tree',
+               'step %d (%s): quiescent, a consumer keyed by endpoint (join ignored when the endpoint is held, leave pops it) '
+               'holds endpoints %s but the endpoints present are %s; names held %s'
+               % (i, k, sorted(by_ep), sorted(want_ep), sorted(consumer)))
     prev = st
   if 'noraise_events' in obs:
     a = [[e[0], e[1]] for s in obs['steps'] for e in s['ev']]
@@ -367,7 +403,15 @@ def _settle_ops(s, limit=60):
   return ops
 
 
-def _cover_traces(depth, avoid, names, filt, limit):
+def _ep_conflict(s, op, ep_mod):
+  """Restart histories: a node is not created while another present member announces the same endpoint (two
+  live nodes with one endpoint make an endpoint-keyed consumer ambiguous: it is then not judged by endpoint)."""
+  if not ep_mod or op[0] != 'mk' or op[1] in s.filt:
+    return False
+  return any(x != op[1] and x not in s.filt and x % ep_mod == op[1] % ep_mod for x in s.kids)
+
+
+def _cover_traces(depth, avoid, names, filt, limit, ep_mod=None):
   """One shortest history per distinct shadow state (breadth first), each followed by a settling phase."""
   alphabet = ([['start'], ['mkp'], ['rmp'], ['touch'], ['deliver'], ['work']] +
               [['mk', n] for n in names] + [['rm', n] for n in names])
@@ -379,7 +423,7 @@ def _cover_traces(depth, avoid, names, filt, limit):
     nxt = []
     for s, path in frontier:
       for op in alphabet:
-        if not SH.effective(s, op) or (SH.patterns(s, op) & avoid):
+        if not SH.effective(s, op) or (SH.patterns(s, op) & avoid) or _ep_conflict(s, op, ep_mod):
           continue
         t = SH.step(s.clone(), op)
         kx = t.key()
@@ -398,11 +442,17 @@ def _cover_traces(depth, avoid, names, filt, limit):
 _W = [('mk', 7), ('rm', 5), ('mkp', 2), ('rmp', 2), ('touch', 1), ('deliver', 7), ('work', 7), ('raise', 1), ('settle', 1)]
 
 
-def _random_trace(r, avoid):
+def _random_trace(r, avoid, restarts=False):
   k = r.choice([2, 2, 3, 4, 5])
+  ep_mod = None
+  if restarts:               # servers restarting on the same host:port under a new node name
+    k = r.choice([2, 4, 6])
+    ep_mod = k // 2
   filt = [r.randrange(k)] if r.random() < 0.3 else []
   n = r.choice([10, 20, 30, 50, 90])
   w = dict(_W)
+  if restarts:
+    w['restart'] = 6
   mode = r.random()
   if mode < 0.25:          # worker starved, deliveries prompt
     w['work'] = 1
@@ -419,7 +469,7 @@ def _random_trace(r, avoid):
     pre = [['mkp']] + [['mk', r.randrange(k)] for _ in range(r.choice([0, 1, 2, 3]))]
     pre.insert(r.randrange(len(pre) + 1), ['start'])
     for op in pre:
-      if not (SH.patterns(s, op) & avoid):
+      if not (SH.patterns(s, op) & avoid) and not _ep_conflict(s, op, ep_mod):
         ops.append(op)
         SH.step(s, op)
   while len(ops) < n:
@@ -431,10 +481,31 @@ def _random_trace(r, avoid):
     if nm == 'settle':
       ops.extend(_settle_ops(s))
       continue
+    if nm == 'restart':      # old node gone, new node with the same endpoint there, before the children watch is re-read
+      live = [x for x in s.kids if x not in filt]
+      if not (s.parent and live):
+        continue
+      a = r.choice(live)
+      cand = [b for b in range(k) if b != a and b not in filt and b % ep_mod == a % ep_mod]
+      if not cand:
+        continue
+      pair = [['rm', a], ['mk', r.choice(cand)]]
+      t = s.clone()
+      bad = False
+      for op in pair:
+        if (SH.patterns(t, op) & avoid) or _ep_conflict(t, op, ep_mod):
+          bad = True
+          break
+        SH.step(t, op)
+      if not bad:
+        for op in pair:
+          ops.append(op)
+          SH.step(s, op)
+      continue
     op = [nm, r.randrange(k)] if nm in ('mk', 'rm') else [nm]
     if r.random() < 0.7 and not SH.effective(s, op):
       continue
-    if SH.patterns(s, op) & avoid:
+    if (SH.patterns(s, op) & avoid) or _ep_conflict(s, op, ep_mod):
       continue
     if nm == 'start' and s.started:
       continue
@@ -442,7 +513,11 @@ def _random_trace(r, avoid):
     SH.step(s, op)
   if r.random() < 0.9:
     ops.extend(_settle_ops(s))
-  return {'kind': 'random', 'filtered': filt, 'ops': ops}
+  c = {'kind': 'random', 'filtered': filt, 'ops': ops}
+  if ep_mod:
+    c['kind'] = 'random-restarts'
+    c['ep_mod'] = ep_mod
+  return c
 
 
 S_, D_, W_ = ['start'], ['deliver'], ['work']
@@ -466,6 +541,15 @@ F22_HAND = [   # F22 (fixed by d0a2403): the all-members-left notification must 
     {'kind': 'hand', 'name': 'f22-double-join', 'ops': [['mkp'], S_, ['mk', 0], D_, ['rmp'], D_, D_, ['mkp'], ['mk', 0], D_, W_, W_, W_, W_]},
     {'kind': 'hand', 'name': 'f22-queued-leave-then-all-removed', 'ops': [['mkp'], ['mk', 0], ['mk', 1], S_, W_, W_, W_, ['rm', 0], D_, ['rmp'], D_, D_, W_, W_]},
 ]
+RESTART_HAND = [   # a server restarts on the same host:port: old node and new node (same endpoint) in one children event
+    {'kind': 'hand', 'name': 'restart-same-endpoint', 'ep_mod': 1,
+     'ops': [['mkp'], ['mk', 0], S_, W_, W_, ['rm', 0], ['mk', 1], D_, W_, W_, W_]},
+    {'kind': 'hand', 'name': 'restart-two-servers', 'ep_mod': 2,
+     'ops': [['mkp'], ['mk', 0], ['mk', 1], S_, W_, W_, W_, ['rm', 0], ['mk', 2], ['rm', 1], ['mk', 3], D_, W_, W_, W_,
+             ['rm', 3], ['mk', 1], D_, W_, W_]},
+    {'kind': 'hand', 'name': 'restart-then-path-deleted', 'ep_mod': 1,
+     'ops': [['mkp'], S_, ['mk', 0], D_, W_, W_, ['rm', 0], ['mk', 1], D_, W_, ['rmp'], D_, D_, W_, W_, ['mkp'], D_, ['mk', 0], D_, W_, W_, W_]},
+]
 PATTERN_HAND = [
     {'kind': 'pattern', 'pattern': 'g2', 'name': 'vanish-recreate', 'ops': [['mkp'], S_, ['mk', 0], D_, ['rm', 0], W_, W_, ['mk', 0], D_, W_]},
     {'kind': 'pattern', 'pattern': 'g3', 'name': 'dead-watch', 'ops': [['mkp'], ['mk', 0], S_, W_, W_, ['rmp'], D_, ['mkp'], D_, W_, ['mk', 1], D_, W_]},
@@ -479,7 +563,7 @@ def gen_cases(tier, seed):
   avoid = avoided()
   clean = set(AVOID_DEFAULT)
   allowed = clean - avoid
-  out = [dict(c) for c in HAND + F22_HAND]
+  out = [dict(c) for c in HAND + F22_HAND + RESTART_HAND]
   quick = tier == 'quick'
   for names, filt, depth, limit in ([([0, 1], [], 8 if quick else 12, 700 if quick else 9000),
                                      ([0, 2], [2], 7 if quick else 9, 250 if quick else 2500)]):
@@ -488,6 +572,10 @@ def gen_cases(tier, seed):
   n = 700 if quick else 11000
   for i in range(n):
     out.append(_random_trace(C.case_rng(seed, PID, i), clean))
+  for ops in _cover_traces(8 if quick else 11, clean, [0, 1, 2], [], 250 if quick else 3000, ep_mod=2):
+    out.append({'kind': 'cover-restarts', 'filtered': [], 'ep_mod': 2, 'ops': ops})
+  for i in range(300 if quick else 4000):
+    out.append(_random_trace(C.case_rng(seed + 7368787, PID, i), clean, restarts=True))
   if allowed:
     for c in PATTERN_HAND:
       if c['pattern'] in allowed:
@@ -628,9 +716,16 @@ def stats(cases, obs):
         b['steps_with_two_or_more_children_watches'] += 1
       for e in st['ev']:
         b['%s%s' % (e[0], '_raising' if e[2] else '')] += 1
+      if st.get('evep'):
+        le = set(ep for e, ep in zip(st['ev'], st['evep']) if e[0] == 'leave')
+        je = set(ep for e, ep in zip(st['ev'], st['evep']) if e[0] == 'join')
+        if le & je:
+          b['worker_runs_with_leave_and_join_of_the_same_endpoint'] += 1
       if 'exc' in st:
         b['exception_escaped_%s' % st['exc']] += 1
       prev = st
     if 'noraise_events' in o:
       b['histories_rerun_without_raising'] += 1
+    if c.get('ep_mod'):
+      b['histories_with_shared_endpoints'] += 1
   return {'branch_distribution': dict(b), 'families_avoided': sorted(avoided())}
